@@ -52,7 +52,7 @@ def run(chk: Check) -> None:
         if rule in ("R05.3", "R03.5") or (rule == "R03.3" and "leave-previous-owner" in construct):
             chk.ob("R12.6", construct, ok, loc, msg, facts)
             k += 1
-    chk.floor("R12.6", "index-maintenance obligations", k, 6)
+    chk.floor("R12.6", "index-maintenance obligations", k, 4)
     for s in tree_sites(repo):
         index_key_rule(chk, s, own, "R12.5")
     notify_protocol(chk, "R12.5")
@@ -154,7 +154,7 @@ def _writes(f: FuncInfo) -> List[Tuple[ast.AST, str]]:
 
 def _purity(chk: Check, types: TypeEnv, lt: ClassInfo) -> None:
     eps = _entry_points(chk)
-    chk.floor("R12.1", "lookup entry points", len(eps), 40)
+    chk.floor("R12.1", "lookup entry points", len(eps), 28)
     for ep in eps:
         seen: Dict[str, FuncInfo] = {}
         stack = [ep]
@@ -232,7 +232,7 @@ def _ownership(chk: Check, lt: ClassInfo) -> None:
                     chk.ob("R12.2", "%s:get-not-cached(%s)" % (f.qualname, s.attr), not stored, f.loc(n),
                            "%s stores the tree returned by get(): get() may return a new tree next "
                            "time, the stored one goes stale" % f.qualname, 2)
-        chk.floor("R12.2", "uses of %s.%s" % (s.owner.name, s.attr), n_use, 4)
+        chk.floor("R12.2", "uses of %s.%s" % (s.owner.name, s.attr), n_use, 3)
 
 
 def _capture(chk: Check, lt: ClassInfo) -> None:
@@ -309,10 +309,23 @@ def _get(chk: Check, lt: ClassInfo) -> None:
     me = f.self_name
     cfg = CFG(f.node)
     al = local_aliases(f.node)
+    # the rules below reason about ``self._interval_index`` / ``self._interval_events`` by name;
+    # a body that works on local aliases of them (or of their bound methods) is outside that
+    # fragment: its obligations are reported as undecided, not as violations
+    def _is_alias_value(v: ast.AST) -> bool:
+        if isinstance(v, ast.Tuple):
+            return any(_is_alias_value(e) for e in v.elts)
+        p_ = attr_path(v)
+        return bool(p_) and ("_interval_index" in p_ or "_interval_events" in p_ or (
+            p_[0] in al and _is_alias_value(al[p_[0]])))
+    aliased = any(
+        isinstance(n, ast.Assign) and _is_alias_value(n.value)
+        and any(isinstance(t, (ast.Name, ast.Tuple)) for t in n.targets)
+        for n in walk_no_nested(f.node))
     rets = [r for r in walk_no_nested(f.node) if isinstance(r, ast.Return)]
     ok = bool(rets) and all(r.value is not None and attr_path(r.value) == (me, "_interval_index") for r in rets)
     chk.ob("R12.4", "LazyIntervalTree.get:returns-index", ok, f.loc(),
-           "get() must return self._interval_index", 1)
+           "get() must return self._interval_index", 1, undecided=aliased)
     rebuild = cfg.nodes_where(lambda n: isinstance(n, ast.Assign) and any(
         attr_path(t) == (me, "_interval_index") for t in n.targets) and isinstance(n.value, ast.Call)
         and (dotted(n.value.func) or ("",))[-1] == "IntervalTree" and len(n.value.args) == 1)
@@ -358,11 +371,11 @@ def _get(chk: Check, lt: ClassInfo) -> None:
             chk.ob("R12.4", "LazyIntervalTree.get:replay-applies-all-in-order", good, f.loc(n),
                    "the replay branch must walk self._interval_events in queue order and apply "
                    "ADDED -> add(interval), every other event -> discard(interval), skipping none "
-                   "(in order: %s, applied: %s)" % (in_order, applied), 4)
+                   "(in order: %s, applied: %s)" % (in_order, applied), 4, undecided=aliased)
     wit = cfg.path_avoiding(cfg.entry, cfg.exit, rebuild | replay_heads)
     chk.ob("R12.4", "LazyIntervalTree.get:every-path-rebuilds-or-replays", wit is None, f.loc(),
            "a path through get() returns the tree without rebuilding it or applying the queued "
-           "events: %s" % (" -> ".join(cfg.describe_path(wit)) if wit else "-"), 3)
+           "events: %s" % (" -> ".join(cfg.describe_path(wit)) if wit else "-"), 3, undecided=aliased)
     # first use (index is None) must rebuild
     none_br: Set[int] = set()
     for n, i in cfg.info.items():
@@ -377,12 +390,12 @@ def _get(chk: Check, lt: ClassInfo) -> None:
         if cfg.path_avoiding(b, cfg.exit, rebuild) is not None:
             ok = False
     chk.ob("R12.4", "LazyIntervalTree.get:first-use-builds", ok, f.loc(),
-           "when no tree exists yet get() must build one from the value collection", 2)
+           "when no tree exists yet get() must build one from the value collection", 2, undecided=aliased)
     # replay only on a materialised tree
     for h in replay_heads:
         ok = cfg.path_avoiding(cfg.entry, h, _neg(cfg, none_br)) is None
         chk.ob("R12.4", "LazyIntervalTree.get:replay-needs-tree", ok, f.loc(),
-               "events can be replayed onto a tree that does not exist", 2)
+               "events can be replayed onto a tree that does not exist", 2, undecided=aliased)
     clears = cfg.nodes_where(lambda n: isinstance(n, ast.Call) and
                              attr_path(n.func) == (me, "_interval_events", "clear")) | \
         cfg.nodes_where(lambda n: isinstance(n, ast.Assign) and any(
@@ -391,10 +404,10 @@ def _get(chk: Check, lt: ClassInfo) -> None:
     wit = cfg.path_avoiding(cfg.entry, cfg.exit, clears)
     chk.ob("R12.4", "LazyIntervalTree.get:clears-queue", wit is None, f.loc(),
            "a path through get() leaves events queued: they would be applied a second time by the "
-           "next lookup: %s" % (" -> ".join(cfg.describe_path(wit)) if wit else "-"), 3)
+           "next lookup: %s" % (" -> ".join(cfg.describe_path(wit)) if wit else "-"), 3, undecided=aliased)
     early = [c for c in clears if any(h in cfg.reachable(c) for h in replay_heads)]
     chk.ob("R12.4", "LazyIntervalTree.get:clears-after-replay", not early, f.loc(),
-           "the queue is cleared before it is replayed", 2)
+           "the queue is cleared before it is replayed", 2, undecided=aliased)
     # the rebuild enumerates the value collection through the builder, skipping None
     gen = f.nested().get("intervals")
     src = gen.node if gen is not None else f.node
@@ -439,9 +452,30 @@ def _get(chk: Check, lt: ClassInfo) -> None:
                     yields_ok = bound and reaches and guarded
                 except (AnalysisError, IndexError):
                     yields_ok = False
+    shape_known = uses_vals
+    if not yields_ok:
+        # the same as generator expressions: (iv for iv in (make(v) for v in values) if iv)
+        for ge in ast.walk(src):
+            if not isinstance(ge, ast.GeneratorExp) or len(ge.generators) != 1:
+                continue
+            g0 = ge.generators[0]
+            inner = g0.iter
+            if isinstance(inner, ast.GeneratorExp) and len(inner.generators) == 1 and not inner.generators[0].ifs \
+                    and attr_path(inner.generators[0].iter) == (me, "_value_collection") \
+                    and isinstance(inner.elt, ast.Call) and attr_path(inner.elt.func) == (me, "_make_interval") \
+                    and len(inner.elt.args) == 1 and attr_path(inner.elt.args[0]) == attr_path(inner.generators[0].target) \
+                    and isinstance(g0.target, ast.Name) and attr_path(ge.elt) == (g0.target.id,) and len(g0.ifs) == 1:
+                t_ = g0.ifs[0]
+                present_test = (isinstance(t_, ast.Name) and t_.id == g0.target.id) or (
+                    isinstance(t_, ast.Compare) and len(t_.ops) == 1 and isinstance(t_.ops[0], ast.IsNot)
+                    and attr_path(t_.left) == (g0.target.id,) and isinstance(t_.comparators[0], ast.Constant)
+                    and t_.comparators[0].value is None)
+                shape_known = True
+                uses_vals = uses_builder = True
+                yields_ok = present_test
     chk.ob("R12.4", "LazyIntervalTree.get:rebuild-from-values", uses_vals and uses_builder and yields_ok, f.loc(),
            "a rebuild must index every value of self._value_collection through self._make_interval, "
-           "yielding exactly the intervals that are not None", 3)
+           "yielding exactly the intervals that are not None", 3, undecided=aliased)
     init0 = lt.methods.get("__init__")
     if init0 is not None:
         ps0 = init0.param_names()
